@@ -13,8 +13,9 @@ from vlib import irv
 RULE = ("the C04 workload restricted to auditable profiles; n = 3..7 candidates (8 in the thorough tier), hints none/true/wrong, "
         "both difficulty functions; non-trivial = the optimum is attained by an assertion that is not the cheapest for "
         "every order (at least two distinct difficulties among the per-order optima); distinct = hash of the case")
-REQUIRED = ["contest_object_reused_after_other_cvrs", "ballot_mappings_not_stored_in_preference_order", "ballots_whose_rank_numbers_have_holes", "optimum_compared", "hint:none", "hint:true", "hint:wrong", "asn:cp", "asn:bp", "runs_with_a_difficulty_function_that_is_not_shipped", "n_candidates:3",
-            "n_candidates:4", "n_candidates:5", "n_candidates:6", "optimum_is_NEN", "optimum_is_NEB"]
+REQUIRED = ["contest_object_reused_after_other_cvrs", "ballot_mappings_not_stored_in_preference_order", "ballots_whose_rank_numbers_have_holes", "optimum_compared", "hint:none", "hint:true", "hint:wrong", "asn:cp", "asn:bp", "asn:offset_inverse_margin", "runs_with_a_difficulty_function_that_is_not_shipped", "n_candidates:3",
+            "n_candidates:4", "n_candidates:5", "n_candidates:6", "optimum_is_NEN", "optimum_is_NEB", "optimum_compared:large_electorate",
+            "optimum_compared:distinct_difficulties_that_agree_to_five_digits"]
 ASSUMPTIONS = ["difficulty functions decrease as the margin grows (both shipped ones do)", "ties in difficulty between "
                "different sets are irrelevant: only the value is compared (rtol 1e-9)"]
 N_CASES = {"quick": 40000, "thorough": 500000}
@@ -28,6 +29,10 @@ def plan(tier, seed):
 
 def run_shard(spec, rec):
     rng = random.Random(f"c15-{spec['seed']}-{spec['shard']}")
+    for i in range(1 if spec["tier"] == "quick" else 5):
+        case = rc.gen_large_case(rng)
+        rec.count("large_electorates")
+        run_case(case, rec)
     for i in range(spec["n"]):
         case = rc.gen_case(rng, n=rc.pick_n(rng, spec["tier"], n_min=3))
         if rng.random() < 0.8:  # mostly auditable profiles: report the true winner
@@ -67,6 +72,11 @@ def run_case(case, rec):
     rec.count(f"hint:{'none' if not case['order'] else 'true' if case['order'] == irv.irv_order(cands, r['counter']) else 'wrong'}")
     rec.count(f"asn:{case['asn']}")
     rec.count(f"n_candidates:{len(cands)}")
+    if case.get("weights"):
+        rec.count("optimum_compared:large_electorate")
+        ds = sorted(v[2] for v in true_all.values() if v[2] < float("inf"))
+        if any(0 < b - a <= 1e-5 * b for a, b in zip(ds, ds[1:])):
+            rec.count("optimum_compared:distinct_difficulties_that_agree_to_five_digits")
     worst_keys = [k for k, v in true_all.items() if abs(v[2] - dstar) <= 1e-9 * abs(dstar)]
     if any(k[0] == "NEN" for k in worst_keys):
         rec.count("optimum_is_NEN")
